@@ -1060,6 +1060,14 @@ fn gen_c07(r: &mut Rng, seed: u64) -> Scenario {
         };
         opts.crash = Some(crash_spec(r, tid, rsp, rip));
         tags.push(format!("ip-{}", pos));
+        if n > 1 && r.chance(1, 10) {
+            // the blamed thread is being traced by another process: the writer cannot attach to it and
+            // leaves it out of the thread list; the crash context is known all the same
+            if let Some(t) = b.world.threads.iter_mut().find(|t| t.tid == tid) {
+                t.foreign_tracer = true;
+            }
+            tags.push("blamed-not-attachable".into());
+        }
     }
     if r.chance(1, 4) {
         opts.size_limit = size_limit_choice(r, n);
